@@ -168,3 +168,40 @@ func debugWO(run *Run, replay string) {
 	res := safeCall("CollectWriteOnlyAttributes", func() (interface{}, error) { return pd.CollectWriteOnlyAttributes() })
 	fmt.Printf("no body -> %v panic=%q err=%v\n", res.Val, res.Panic, res.Err)
 }
+
+func init() { props["debug-ops"] = debugOps }
+
+func debugOps(run *Run, replay string) {
+	debugOperands = true
+	operandSymmetryOracle(run, rand.New(rand.NewSource(5)), 12)
+	fmt.Println("violations:", len(run.Res.Violations), "evals", run.Res.Evaluations)
+	for i, v := range run.Res.Violations {
+		if i < 3 {
+			fmt.Println(v.Key, v.Detail)
+		}
+	}
+}
+
+func init() { props["debug-ops2"] = debugOps2 }
+
+func debugOps2(run *Run, replay string) {
+	base := tfSchema()
+	sch := &schema.BodySchema{
+		Blocks:     map[string]*schema.BlockSchema{"variable": base.Blocks["variable"]},
+		Attributes: map[string]*schema.AttributeSchema{"out_b": {IsOptional: true, Constraint: schema.AnyExpression{OfType: cty.Bool}}},
+	}
+	src := "variable \"num\" {\n  type = number\n}\nout_b = var.num < var.num\n"
+	if os.Getenv("DEBUG_SRC") != "" {
+		src = os.Getenv("DEBUG_SRC")
+	}
+	w := newWorld()
+	pd := w.AddPath("root", sch, map[string]string{"main.tf": src}, nil)
+	fmt.Println(w.Collect())
+	fmt.Println("targets", len(pd.Ctx.ReferenceTargets), Show(targetsS(pd.Ctx.ReferenceTargets)))
+	d, _ := w.Dec.Path(pd.Path)
+	tbl := lcTable([]byte(src))
+	for off := len(src) - 24; off < len(src); off++ {
+		c, err := d.CompletionAtPos(context.Background(), "main.tf", tbl[off])
+		fmt.Printf("%d %q %d %v\n", off, src[:off][len(src)-24:], len(c.List), err)
+	}
+}
